@@ -27,6 +27,17 @@ type evalCtx struct {
 	depth int
 	loopVar func(n int, name string) (Val, bool)
 	entryName func(name string) (Val, bool)
+	inQuant bool
+}
+
+// load reads memory for a contract expression. Outside quantifiers the
+// value is named and the range facts of its type are recorded; under a
+// quantifier the read is a pure term (it may mention the bound variable).
+func (e *evalCtx) load(p Val, t types.Type) Val {
+	if e.inQuant {
+		return e.c.loadQuiet(e.st, p, t)
+	}
+	return e.c.load(e.st, p, t)
 }
 
 func (e *evalCtx) withBound(name string, v Val) *evalCtx {
@@ -103,7 +114,7 @@ func (e *evalCtx) eval(x ast.Expr) Val {
 		if p.K != kPtr {
 			e.fail("dereference of non-pointer %s", exprString(t.X))
 		}
-		return c.loadQuiet(e.st, p, pointeeOfVal(p))
+		return e.load(p, pointeeOfVal(p))
 	case *ast.BinaryExpr:
 		return e.binary(t)
 	case *ast.CallExpr:
@@ -178,7 +189,7 @@ func (e *evalCtx) object(obj types.Object) Val {
 			if p.Pkg == o.Pkg() {
 				if g, ok := p.Members[o.Name()].(*ssa.Global); ok {
 					ptr := ptrVal(g.Type(), e.c.eng.globalRef(g), "0")
-					return e.c.loadQuiet(e.st, ptr, o.Type())
+					return e.load(ptr, o.Type())
 				}
 			}
 		}
@@ -312,6 +323,7 @@ func (e *evalCtx) quant(t *ast.CallExpr, q string) Val {
 	e.c.qctr++
 	bn := fmt.Sprintf("%s_q%d", id.Name, e.c.qctr)
 	inner := e.withBound(id.Name, mathInt(bn))
+	inner.inQuant = true
 	body := inner.boolOf(t.Args[3])
 	rng := and(sx("<=", lo, bn), sx("<", bn, hi))
 	if q == "forall" {
@@ -588,7 +600,7 @@ func (e *evalCtx) index(t *ast.IndexExpr) Val {
 		i := e.intOf(t.Index)
 		el := x.T.Underlying().(*types.Slice).Elem()
 		p := Val{K: kPtr, T: types.NewPointer(el), Ref: x.Ref, Idx: add(x.Off, i), Root: el}
-		return c.loadQuiet(e.st, p, el)
+		return e.load(p, el)
 	case kPtr:
 		at, ok := pointeeOfVal(x).Underlying().(*types.Array)
 		if !ok {
@@ -596,7 +608,7 @@ func (e *evalCtx) index(t *ast.IndexExpr) Val {
 		}
 		i := e.intOf(t.Index)
 		p := Val{K: kPtr, T: types.NewPointer(at.Elem()), Ref: x.Ref, Idx: add(x.Idx, i), Root: at.Elem()}
-		return c.loadQuiet(e.st, p, at.Elem())
+		return e.load(p, at.Elem())
 	case kArray:
 		i := e.intOf(t.Index)
 		at := x.T.Underlying().(*types.Array)
@@ -709,7 +721,7 @@ func (e *evalCtx) selector(t *ast.SelectorExpr) Val {
 			fp := c.fieldAddr(cur, k, types.NewPointer(curT.Field(k).Type()))
 			ft := curT.Field(k).Type()
 			if pt, ok := ft.Underlying().(*types.Pointer); ok {
-				ld := c.loadQuiet(e.st, fp, ft)
+				ld := e.load(fp, ft)
 				cur = ld
 				curT = pt.Elem().Underlying().(*types.Struct)
 			} else {
@@ -722,7 +734,7 @@ func (e *evalCtx) selector(t *ast.SelectorExpr) Val {
 		if _, isArr := ft.Underlying().(*types.Array); isArr {
 			return fp // arrays are used through their address (indexing, slicing)
 		}
-		return c.loadQuiet(e.st, fp, ft)
+		return e.load(fp, ft)
 	case kStruct:
 		st := x.T.Underlying().(*types.Struct)
 		idx, emb := findField(st, name)
